@@ -32,6 +32,11 @@ class BLOB:
         return self.size
 
 
+_SEXAGESIMAL_NUMBER = re.compile(
+    r"^([+-]?)(\d+(?:\.\d*)?|\.\d+)[:; ]+(\d+(?:\.\d*)?)(?:[:; ]+(\d+(?:\.\d*)?))?$"
+)
+
+
 def str_to_num(s: str, fmt: str) -> Any[float, int]:
     if s is None:
         return None
@@ -49,30 +54,26 @@ def str_to_num(s: str, fmt: str) -> Any[float, int]:
             9,
         ), f"Invalid sexagesimal number format: {fmt}"
 
-        regexps = {
-            3: r"^(\-?\d+)[:; ](\d{2})$",
-            5: r"^(\-?\d+)[:; ](\d{2}\.\d+)$",
-            6: r"^(\-?\d+)[:; ](\d{2})[:; ](\d{2})$",
-            8: r"^(\-?\d+)[:; ](\d{2})[:; ](\d{2}.\d+)$",
-            9: r"^(\-?\d+)[:; ](\d{2})[:; ](\d{2}.\d+)$",
-        }
+    s = s.strip()
 
-        num_match = re.match(regexps[fraction_length], s)
-        if not num_match:
-            raise ValueError("Cannot convert string to number")
-        num_match_groups = num_match.groups()
-        wholes = num_match_groups[0]
-        minutes = num_match_groups[1]
-        seconds = num_match_groups[2] if fraction_length in (6, 8, 9) else 0
-
+    # a peer may send any number in sexagesimal or in plain notation,
+    # whatever the format of the property
+    num_match = _SEXAGESIMAL_NUMBER.match(s)
+    if num_match:
+        sign, wholes, minutes, seconds = num_match.groups()
         # the sign applies to the whole magnitude, not only to the first field
-        value = abs(float(wholes)) + (float(minutes) / 60) + (float(seconds) / 3600)
-        return -value if wholes.startswith("-") else value
+        value = float(wholes) + float(minutes) / 60 + float(seconds or 0) / 3600
+        return -value if sign == "-" else value
 
-    if "." in s:
+    try:
+        return int(s)
+    except ValueError:
+        pass
+
+    try:
         return float(s)
-
-    return int(s)
+    except ValueError:
+        raise ValueError("Cannot convert string to number")
 
 
 def num_to_str(n: Optional[float], fmt: str) -> Optional[str]:
